@@ -255,6 +255,18 @@ class Ctx:
                 self.obligation(f"thm:{thm}", not extra, f"non-standard axioms {extra}" if extra else "")
         used = sorted({a for axs in names.values() for a in axs})
         self.trusted.append("Lean 4.33.0 kernel; axioms used by the property theorems/certificates: " + (", ".join(used) or "none"))
+        if self.tier == "thorough" and os.environ.get("VERIF_NO_LEANCHECKER") != "1":
+            # independent re-check of the compiled .olean files of the audited modules (the toolchain's leanchecker replays every
+            # declaration of these modules through the kernel; their imports are taken as given)
+            t0 = time.time()
+            try:
+                rc, out = sh(["lake", "env", "leanchecker"] + list(modules), cwd=LEAN, timeout=3000)
+            except Exception as e:  # noqa: BLE001   (a timeout / missing tool is a failure of the machinery, never a verdict)
+                rc, out = None, repr(e)
+            if rc is not None:
+                self.obligation("audit:leanchecker:" + ",".join(modules)[:200], rc == 0, out[-1500:])
+            self.checker_cmds.append("cd lean && lake env leanchecker " + " ".join(modules))
+            self.log(f"leanchecker {len(modules)} module(s) -> rc={rc} ({time.time() - t0:.1f}s)")
         return names
 
     # ---- verdicts ----------------------------------------------------
